@@ -18,6 +18,25 @@ if "--checks" in sys.argv:
     checks = sys.argv[sys.argv.index("--checks") + 1].split(",")
 pkg = meta.get("demo_pkg", ".")
 run = meta.get("demo_run", ".")
+if "--detect-only" in sys.argv:
+    # keeps the recorded demonstration / suite results and re-runs only step 5 against the current checks
+    res = meta.get("verified", {})
+    a = subprocess.run(["git", "-C", "/repo", "apply", "--check", os.path.join(d, "patch.diff")], capture_output=True, text=True)
+    res["patch_applies"] = a.returncode == 0
+    res["detect_at"] = time.strftime("%Y-%m-%dT%H:%M:%SZ", time.gmtime())
+    det = {}
+    for c in checks if a.returncode == 0 else []:
+        r = subprocess.run([os.path.join(V, "vcheck"), c, meta.get("detect_tier", "quick"), "--solo", "--mutant", os.path.join(d, "patch.diff")], cwd=V,
+                           capture_output=True, text=True, env=dict(os.environ, **meta.get("detect_env", {})))
+        sigs = [l.strip() for l in r.stdout.splitlines() if l.strip().startswith("class:")]
+        det[c] = {"exit": r.returncode, "detected": r.returncode == 1, "classes": [x[:300] for x in sigs[:6]]}
+        if r.returncode == 2:
+            det[c]["tool_error"] = r.stdout[-800:]
+    res["checks"] = det
+    meta["verified"] = res
+    json.dump(meta, open(os.path.join(d, "meta.json"), "w"), indent=1)
+    print(os.path.basename(d), {c: (x["detected"], x["exit"]) for c, x in det.items()}, "applies" if a.returncode == 0 else "DOES NOT APPLY")
+    sys.exit(0)
 wt = tempfile.mkdtemp(prefix="seedverify-", dir="/tmp")
 os.rmdir(wt)
 env = dict(os.environ, GOFLAGS="-mod=mod", GOPROXY="off")
